@@ -11,7 +11,7 @@ Full == [st |-> St, g |-> [fwdMap |-> fwdMap, ackedWire |-> ackedWire, shown |->
 ObsNext == [out |-> out', pending |-> pending', done |-> done']
 Labelled(E(_)) ==
     /\ TLCGet("level") < Depth
-    /\ \/ \E d \in D, k \in 1..MaxEp, rel \in BOOLEAN, kind \in {"msg", "pa"}, disp \in {"fwd", "drop"} :
+    /\ \/ \E d \in D, k \in 1..MaxEp, rel \in BOOLEAN, kind \in {"msg", "pa"}, disp \in {"fwd", "drop", "take"} :
              \E A \in AckChoices(d, MaxAcks) :
                 \E n \in 0..Len(A) :
                     /\ EndpointSend(d, k, rel, kind, SubSeq(A, 1, n), SubSeq(A, n + 1, Len(A)), disp)
